@@ -74,7 +74,7 @@ def _callsig(col, rule="C10.R1"):
             full = S.call_args(ev.term, ("lst", "state", "entries", "attr")) or S.call_args(ev.term, ("lst", "state", "entries"))
             if full is not None and full[1] == ("const", state):
                 attr = full[3] if len(full) == 4 else None
-                got.add((full[0], full[2], attr[1].strip("'\"") if attr else None))
+                got.add((full[0], full[2], (attr[1].strip("'\"") if attr[:1] == ("const",) else S.show(attr)) if attr else None))
         got_n = {(x, y, (z if z != "tag" or x != S.sattr("targets") else None)) for x, y, z in got}
         ok = {(x, y, z if not (x == S.sattr("vary") and z is None) else "tag") for x, y, z in got_n} == want
         col.add(rule, f"Optimize.{meth}#sets-state-{state}", ok, sx.loc(sx.fn),
